@@ -404,14 +404,22 @@ def chain(n):
     return n, ms
 
 
+# trivial re-bindings (`let x = y`, parameters of inlined helpers): id -> id it stands for (filled by psa.norm)
+ALIASES = {}
+
+
+def canon(i):
+    return ALIASES.get(i, i)
+
+
 def is_local(n, i=None):
     n = peel(n)
-    return n.get("k") == "local" and (i is None or n["id"] == i)
+    return n.get("k") == "local" and (i is None or n["id"] == i or (i is not None and canon(n["id"]) == canon(i)))
 
 
 def local_id(n):
     n = peel(n)
-    return n["id"] if n.get("k") == "local" else None
+    return canon(n["id"]) if n.get("k") == "local" else None
 
 
 def field_path(n):
